@@ -109,6 +109,7 @@ def encVal : Val → Sx
   | .int i => .int i
   | .names l => tag "names" (l.map .str)
   | .parts l => tag "parts" (l.map encNameParts)
+  | .part p => tag "part" [encNameParts p]
   | .opaque t => tag "opaque" [.int t]
 
 def encMeta : Meta → Sx
@@ -150,6 +151,16 @@ def encBlock : Block → Sx
   | .dupKey k p d => tag "dupkey" [.str k, encLive p, encLive d]
   | .mwError w i => tag "mwerror" [encMwErr w, encLive i]
 
+/-- as `encBlock`, but a duplicate-key block shows its `previous_block` only as (class, key): in
+Python that attribute is a *reference* to the first live block, so after an in-place middleware it
+shows the transformed block, after a copying one the untransformed copy — the value model does not
+track this aliasing, and the comparison of middleware results leaves it out -/
+def encBlockShallow : Block → Sx
+  | .dupKey k p d =>
+    tag "dupkey" [.str k, tag "prev" [.sym (match p with | .entry _ => "entry" | .string .. => "string" | _ => "other"),
+      .str (match p with | .entry e => e.key | .string k' .. => k' | _ => [])], encLive d]
+  | b => encBlock b
+
 def encErr : PyErr → Sx
   | .parserState => .sym "ParserStateException" | .assertion => .sym "AssertionError"
   | .valueError => .sym "ValueError" | .typeError => .sym "TypeError"
@@ -169,6 +180,7 @@ def decVal : Sx → Option Val
   | .int i => some (.int i)
   | .list (.sym "names" :: l) => do pure (.names (← l.mapM Sx.asStr))
   | .list (.sym "parts" :: l) => do pure (.parts (← l.mapM decNameParts))
+  | .list [.sym "part", p] => do pure (.part (← decNameParts p))
   | .list [.sym "opaque", .int t] => some (.opaque t.toNat)
   | _ => none
 
